@@ -151,7 +151,7 @@ def target_positional():
                                    "physical_type_alias": SRec("Type", {"source_location": SRec("SourceLocation", {})})})
 
     def harness(c):
-        rule = c.choice("rule", ["array-size", "field-location", "existence-condition", "parameter-declaration", "passed-parameters"])
+        rule = c.choice("rule", ["array-size", "field-location", "existence-condition", "parameter-declaration", "enum-value", "passed-parameters"])
         errors = []
         c.covered = True
         if rule == "array-size":
@@ -166,6 +166,15 @@ def target_positional():
             kd = c.choice("kind", KINDS)
             pyvc.run_body(c, TC + "._type_check_field_existence_condition", [SRec("Field", {"existence_condition": expr(kd)}), "f.emb", errors])
             c.oblige("error-iff-not-a-boolean", (len(errors) == 1) == (kd != "bool") and len(errors) <= 1)
+        elif rule == "enum-value":
+            # an enum "defines a set of named integers"; `TEN = TEN2` (another enum value) is accepted upstream (pinned test); a
+            # boolean or a non-scalar is not a number (D22: nothing checked this and the header did not compile)
+            kd = c.choice("kind", KINDS)
+            if not hasattr(tc, "_type_check_enum_value"):
+                c.oblige("enum-values-are-type-checked", False, detail="type_check has no _type_check_enum_value")
+                return
+            pyvc.run_body(c, TC + "._type_check_enum_value", [SRec("EnumValue", {"value": expr(kd)}), "f.emb", errors])
+            c.oblige("error-iff-neither-integer-nor-enum-value", (len(errors) == 1) == (kd not in ("int", "enumA", "enumB")) and len(errors) <= 1)
         elif rule == "parameter-declaration":
             kd = c.choice("kind", KINDS)
             pyvc.run_body(c, TC + "._type_check_parameter", [expr(kd), "f.emb", errors])
